@@ -119,6 +119,8 @@ func (e *Engine) binop(st *State, op token.Token, a, b Value, ta, tb types.Type)
 			return one(st, t.Cmp(OpULe, y, x))
 		}
 		panic(e.abort("int binop %s", op))
+	case *OpaqueFloatV:
+		panic(e.abort("use of an unmodelled float value (%s)", x.Why))
 	case *SymFloatV:
 		return e.symFloatOp(st, op, x, b)
 	case FloatV:
